@@ -76,20 +76,29 @@ Qed.
 Definition closed_is (r : rd) (x : option addr) : Prop :=
   match x with Some a => exists t, last_closed r = Some t /\ root t = a | None => True end.
 
+Lemma skipn_cons_lt {A} : forall n (l : list A) f rest, skipn n l = f :: rest -> n < length l.
+Proof.
+  induction n as [|n IH]; intros l f rest H; destruct l as [|x l]; simpl in *; try discriminate; try lia.
+  specialize (IH l f rest H). lia.
+Qed.
+
+Definition post (r0 : rd) (stk' : list ae) (tgt' : option inst) (ta' : option addr) (r' : rd) (pend' : nat) : Prop :=
+  r_m r' = r_m r0 /\ wf r' /\ r_env r' = r_env r0 /\ (r_stack r' <> [] -> r_done r' = None) /\
+  links (tl stk') r' pend' /\ (ta' = None -> pend' = 0) /\ (tgt' = None -> ta' = None) /\ (ta' <> None -> tgt' <> None) /\
+  closed_is r' ta' /\ stk' <> [] /\ Forall (fun p : ae => snd p <> None) (tl stk') /\ pend' <= length (r_stack r').
+
 Lemma rec_done_a_ok : forall below cur tgt ta r pend stk' tgt' ta' sc,
-  wf r -> links below r pend -> (r_stack r <> [] -> r_done r = None) ->
+  wf r -> links below r pend -> (r_stack r <> [] -> r_done r = None) -> pend <= length (r_stack r) ->
   (ta = None -> pend = 0) -> (tgt = None -> ta = None) -> (ta <> None -> tgt <> None) ->
   (ta = None -> closed_is r (snd cur)) ->
   (ta = None -> e_node (fst cur) <> None -> snd cur <> None) ->
   Forall (fun p : ae => snd p <> None) below ->
   closed_is r ta ->
   rec_done_a cur below tgt ta = AOk stk' tgt' ta' sc ->
-  exists r' pend', exec_script sc r ta pend = Some (r', ta', pend') /\
-    r_m r' = r_m r /\ wf r' /\ r_env r' = r_env r /\ (r_stack r' <> [] -> r_done r' = None) /\
-    links (tl stk') r' pend' /\ (ta' = None -> pend' = 0) /\ (tgt' = None -> ta' = None) /\ (ta' <> None -> tgt' <> None) /\
-    closed_is r' ta' /\ stk' <> [] /\ Forall (fun p : ae => snd p <> None) (tl stk').
+  exists r' pend', exec_script sc r ta pend = Some (r', ta', pend') /\ post r stk' tgt' ta' r' pend'.
 Proof.
-  induction below as [|p b IH]; intros cur tgt ta r pend stk' tgt' ta' sc Hwf Hl Hdn Hpend Htt Htt' Hcl Hcn Hbel Hta Hres;
+  unfold post.
+  induction below as [|p b IH]; intros cur tgt ta r pend stk' tgt' ta' sc Hwf Hl Hdn Hple Hpend Htt Htt' Hcl Hcn Hbel Hta Hres;
     simpl in Hres.
   - (* only the root frame *)
     destruct (d_tgt (e_decl (fst cur))) eqn:Edt.
@@ -98,10 +107,10 @@ Proof.
       specialize (Hcl eq_refl). specialize (Hcn eq_refl).
       destruct (snd cur) as [x|] eqn:Ex; [|exfalso; apply Hcn; [discriminate|reflexivity]].
       destruct Hcl as [t [Hlc Hrt]]. rewrite Hlc, Hrt, Pos.eqb_refl.
-      exists r, pend. split; [reflexivity|split; [reflexivity|split; [exact Hwf|split; [reflexivity|split; [exact Hdn|split; [exact Hl|split; [discriminate|split; [discriminate|split; [discriminate|split; [|split; [discriminate|constructor]]]]]]]]]]].
+      exists r, pend. split; [reflexivity|split; [reflexivity|split; [exact Hwf|split; [reflexivity|split; [exact Hdn|split; [exact Hl|split; [discriminate|split; [discriminate|split; [discriminate|split; [|split; [discriminate|split; [constructor|exact Hple]]]]]]]]]]]].
       exists t. auto.
     + inversion Hres; subst. clear Hres. simpl.
-      exists r, pend. split; [reflexivity|split; [reflexivity|split; [exact Hwf|split; [reflexivity|split; [exact Hdn|split; [exact Hl|split; [exact Hpend|split; [exact Htt|split; [exact Htt'|split; [exact Hta|split; [discriminate|constructor]]]]]]]]]]].
+      exists r, pend. split; [reflexivity|split; [reflexivity|split; [exact Hwf|split; [reflexivity|split; [exact Hdn|split; [exact Hl|split; [exact Hpend|split; [exact Htt|split; [exact Htt'|split; [exact Hta|split; [discriminate|split; [constructor|exact Hple]]]]]]]]]]]].
   - (* a parent frame below *)
     inversion Hbel as [|p' b' Hp Hb]; subst.
     set (d := e_decl (fst cur)) in *.
@@ -135,11 +144,11 @@ Proof.
                 r_m r' = r_m r /\ wf r' /\ r_env r' = r_env r /\ (r_stack r' <> [] -> r_done r' = None) /\
                 links (tl (top :: q :: b)) r' pend' /\ (ta1 = None -> pend' = 0) /\ (tgt1 = None -> ta1 = None) /\
                 (ta1 <> None -> tgt1 <> None) /\ closed_is r' ta1 /\ top :: q :: b <> [] /\
-                Forall (fun p : ae => snd p <> None) (tl (top :: q :: b))).
+                Forall (fun p : ae => snd p <> None) (tl (top :: q :: b)) /\ pend' <= length (r_stack r')).
     { intros q top Hq. exists r, pend. split; [exact Hex|split; [reflexivity|split; [exact Hwf|split; [reflexivity|split; [exact Hdn|]]]]].
       split; [|split; [exact Hpend1|split; [exact Htt1|split; [exact Htt1'|split; [exact Hta1|split; [discriminate|]]]]]].
       - simpl. unfold links in *. simpl in *. rewrite Hq. exact Hl.
-      - simpl. constructor; [rewrite Hq; exact Hp|exact Hb]. }
+      - split; [|exact Hple]. simpl. constructor; [rewrite Hq; exact Hp|exact Hb]. }
     match type of Hres with (if ?c then _ else _) = _ => destruct c end;
       [inversion Hres; subst; apply Hkeep; reflexivity|].
     match type of Hres with (if ?c then _ else _) = _ => destruct c end;
@@ -169,8 +178,11 @@ Proof.
           inversion Hl as [[E1 E2]]. rewrite E2.
           assert (Esk' : skipn (S pend) (r_stack r) = rest) by (eapply skipn_S_tail; eauto).
           rewrite Esk'. reflexivity. }
+        assert (HpleS : S pend <= length (r_stack r)).
+        { unfold links in Hl. simpl in Hl. destruct (skipn pend (r_stack r)) as [|f rest] eqn:Esk; simpl in Hl; [discriminate|].
+          apply skipn_cons_lt in Esk. lia. }
         destruct (IH (commit (fst p) (e_node (fst cur)), Some pa) tgt1 (Some x1) r (S pend) stk' tgt' ta' sc2
-                     Hwf Hl' Hdn) as (r' & pend' & Hex2 & Hrest); try discriminate; auto.
+                     Hwf Hl' Hdn HpleS) as (r' & pend' & Hex2 & Hrest); try discriminate; auto.
         exists r', pend'. split; [exact Hex2|exact Hrest].
       * (* closed now *)
         specialize (Hpend1 eq_refl). subst pend.
@@ -184,10 +196,214 @@ Proof.
             by (intros; rewrite map_map; reflexivity).
           unfold links. change (skipn 0 (r_stack r1)) with (r_stack r1). rewrite E2, !Hmm, Hfst1. reflexivity. }
         destruct (IH (commit (fst p) (e_node (fst cur)), Some pa) tgt1 None r1 0 stk' tgt' ta' sc2
-                     Hwf1 Hl1 Hdn1) as (r' & pend' & Hex2 & Em2 & Hrest); auto;
+                     Hwf1 Hl1 Hdn1 (Nat.le_0_l _)) as (r' & pend' & Hex2 & Em2 & Hrest); auto;
           try (intros; discriminate);
           try (intros _; simpl; exists (AT pa fks); split; [exact Hlc1|reflexivity]);
-          try (simpl; exact I).
+          try (simpl; exact Logic.I).
         exists r', pend'. split; [exact Hex2|]. destruct Hrest as (W & V & Rest).
         split; [congruence|split; [exact W|split; [congruence|exact Rest]]].
 Qed.
+
+Lemma rec_next_a_ok stk tgt ta r pend stk' tgt' ta' sc :
+  wf r -> links (tl stk) r pend -> (r_stack r <> [] -> r_done r = None) -> pend <= length (r_stack r) ->
+  (ta = None -> pend = 0) -> (tgt = None -> ta = None) -> (ta <> None -> tgt <> None) ->
+  Forall (fun p : ae => snd p <> None) (tl stk) -> closed_is r ta ->
+  rec_next_a stk tgt ta = AOk stk' tgt' ta' sc ->
+  exists r' pend', exec_script sc r ta pend = Some (r', ta', pend') /\ post r stk' tgt' ta' r' pend'.
+Proof.
+  intros Hwf Hl Hdn Hple Hpend Htt Htt' Hbel Hta Hres. unfold rec_next_a in Hres.
+  destruct stk as [|cur below]; [discriminate|]. simpl in Hl, Hbel.
+  destruct (_ <? _); [discriminate|].
+  destruct below as [|p b].
+  - inversion Hres; subst. exists r, pend. split; [reflexivity|]. unfold post. simpl.
+    split; [reflexivity|split; [exact Hwf|split; [reflexivity|split; [exact Hdn|split; [exact Hl|split; [exact Hpend|split; [exact Htt|split; [exact Htt'|split; [exact Hta|split; [discriminate|split; [constructor|exact Hple]]]]]]]]]]].
+  - inversion Hbel as [|p' b' Hp Hb]; subst.
+    match type of Hres with (if ?c then _ else _) = _ => destruct c end.
+    + match type of Hres with (match ?c with Some _ => _ | None => _ end) = _ => destruct c end; [|discriminate].
+      inversion Hres; subst. exists r, pend. split; [reflexivity|]. unfold post. simpl.
+      split; [reflexivity|split; [exact Hwf|split; [reflexivity|split; [exact Hdn|split; [exact Hl|split; [exact Hpend|split; [exact Htt|split; [exact Htt'|split; [exact Hta|split; [discriminate|split; [constructor; assumption|exact Hple]]]]]]]]]]].
+    + destruct (rec_done_a p b tgt ta) as [stk2 tgt2 ta2 sc2| |] eqn:Erec; simpl in Hres; try discriminate.
+      inversion Hres; subst. clear Hres. simpl.
+      destruct (snd p) as [pa|] eqn:Epa; [|exfalso; apply Hp; reflexivity].
+      destruct ta as [x1|].
+      * assert (Hl' : links b r (S pend)).
+        { unfold links in *. simpl in Hl. destruct (skipn pend (r_stack r)) as [|f rest] eqn:Esk; simpl in Hl; [discriminate|].
+          inversion Hl as [[E1 E2]]. rewrite E2.
+          assert (Esk' : skipn (S pend) (r_stack r) = rest) by (eapply skipn_S_tail; eauto).
+          rewrite Esk'. reflexivity. }
+        assert (HpleS : S pend <= length (r_stack r)).
+        { unfold links in Hl. simpl in Hl. destruct (skipn pend (r_stack r)) as [|f rest] eqn:Esk; simpl in Hl; [discriminate|].
+          apply skipn_cons_lt in Esk. lia. }
+        destruct (rec_done_a_ok b p tgt (Some x1) r (S pend) stk' tgt' ta' sc2 Hwf Hl' Hdn HpleS)
+          as (r' & pend' & Hex2 & Hrest); try discriminate; auto.
+        exists r', pend'. split; [exact Hex2|exact Hrest].
+      * specialize (Hpend eq_refl). subst pend.
+        unfold links in Hl. simpl in Hl.
+        destruct (r_stack r) as [|[fa fks] rest] eqn:Est; simpl in Hl; [discriminate|].
+        inversion Hl as [[E1 E2]]. assert (Efa : fa = pa) by congruence. subst fa.
+        destruct (go_up_wf r pa fks rest Hwf Est) as (r1 & Eg & Em & Hwf1 & Henv1 & Hlc1 & Hfst1 & Hlen1 & Hdn1).
+        rewrite Eg. simpl.
+        assert (Hl1 : links b r1 0).
+        { assert (Hmm : forall l : list aframe, map (fun f : aframe => Some (fst f)) l = map Some (map fst l))
+            by (intros; rewrite map_map; reflexivity).
+          unfold links. change (skipn 0 (r_stack r1)) with (r_stack r1). rewrite E2, !Hmm, Hfst1. reflexivity. }
+        destruct (rec_done_a_ok b p tgt None r1 0 stk' tgt' ta' sc2 Hwf1 Hl1 Hdn1 (Nat.le_0_l _))
+          as (r' & pend' & Hex2 & Hrest); auto;
+          try (intros; discriminate);
+          try (intros _; rewrite Epa; simpl; exists (AT pa fks); split; [exact Hlc1|reflexivity]);
+          try (intros _ _; rewrite Epa; discriminate);
+          try (simpl; exact Logic.I).
+        exists r', pend'. split; [exact Hex2|]. unfold post in *. destruct Hrest as (M' & W & V & Rest).
+        split; [congruence|split; [exact W|split; [congruence|exact Rest]]].
+Qed.
+
+(* ---- the invariant of the addressed state ------------------------------------------------------------------- *)
+Definition HInv (caching : bool) (a : hst) : Prop :=
+  good caching (r_m (a_rd a)) /\ post (a_rd a) (a_stk a) (a_tgt a) (a_ta a) (a_rd a) (a_pending a).
+
+Lemma opt_eqb_refl (x : option addr) : opt_eqb Pos.eqb x x = true.
+Proof. destruct x; simpl; [apply Pos.eqb_refl|reflexivity]. Qed.
+
+Definition step_post (caching : bool) (a : hst) (s : astep) : Prop :=
+  match s with
+  | ACont a' => HInv caching a' /\ ext caching (r_m (a_rd a)) (r_m (a_rd a'))
+  | ARet (ODeliver t) a' => a' = a /\ a_tgt a = Some t
+  | ARet (OTerm _) a' => a' = a
+  end.
+
+Lemma of_ares_ok caching a r0 res rest :
+  good caching (r_m r0) -> ext caching (r_m (a_rd a)) (r_m r0) ->
+  (forall stk' tgt' ta' sc, res = AOk stk' tgt' ta' sc ->
+     exists r' pend', exec_script sc r0 (a_ta a) (a_pending a) = Some (r', ta', pend') /\ post r0 stk' tgt' ta' r' pend') ->
+  exists s, of_ares res rest a r0 = Some s /\ step_post caching a s.
+Proof.
+  intros Hg Hx Hres. destruct res as [stk' tgt' ta' sc|t|site]; simpl.
+  - destruct (Hres _ _ _ _ eq_refl) as (r' & pend' & Hex & Hpost). rewrite Hex. simpl. rewrite opt_eqb_refl.
+    eexists. split; [reflexivity|]. simpl. unfold post in Hpost. destruct Hpost as (M' & W & V & Rest).
+    split; [|rewrite M'; exact Hx]. split; [simpl; rewrite M'; exact Hg|]. unfold post. simpl.
+    split; [reflexivity|split; [exact W|split; [reflexivity|exact Rest]]].
+  - eexists. split; [reflexivity|reflexivity].
+  - eexists. split; [reflexivity|reflexivity].
+Qed.
+
+Section Steps.
+  Variable caching : bool.
+  Variable choose : st -> choice.
+  Variable nm : nat -> bytes.
+  Variable cols : nat -> list nat -> list (bytes * bytes).
+  Variable try_leaf : leaf -> list unt -> option nat.
+  Hypothesis HL : legal caching choose.
+
+  Lemma hinv_unpack a : HInv caching a -> a_tgt a = None ->
+    good caching (r_m (a_rd a)) /\ wf (a_rd a) /\ (r_stack (a_rd a) <> [] -> r_done (a_rd a) = None) /\
+    links (tl (a_stk a)) (a_rd a) 0 /\ a_ta a = None /\ a_pending a = 0 /\
+    Forall (fun p : ae => snd p <> None) (tl (a_stk a)) /\ a_stk a <> [].
+  Proof.
+    intros [Hg (_ & W & _ & Dn & L & P1 & P2 & _ & _ & Ne & Fa & _)] Ht.
+    specialize (P2 Ht). specialize (P1 P2). rewrite P1 in L. auto 10.
+  Qed.
+
+  Lemma instantiate_a_ok cur below n us root_ok a :
+    HInv caching a -> a_tgt a = None -> a_stk a = cur :: below ->
+    exists s, instantiate_a caching choose nm cols cur below n us root_ok a = Some s /\ step_post caching a s.
+  Proof.
+    intros Hinv Ht Estk. destruct (hinv_unpack a Hinv Ht) as (Hg & Hwf & Hdn & Hl & Hta & Hpe & Hfa & _).
+    rewrite Estk in Hl, Hfa. simpl in Hl, Hfa.
+    unfold instantiate_a. destruct (length us <? n); [eexists; split; reflexivity|].
+    set (d := e_decl (fst cur)). set (ids := map u_id (firstn n us)).
+    destruct below as [|p b].
+    - destruct root_ok; [|eexists; split; reflexivity].
+      destruct (build_ok caching choose HL nm cols (r_m (a_rd a)) d ids Hg)
+        as (body & x & cs & Eb & Gb & Wb & Vb & Xb & Sb & Db). rewrite Eb. simpl. rewrite Sb.
+      destruct (d_kids d) as [|k kids] eqn:Ek.
+      + destruct (go_up_wf body x cs [] Wb Sb) as (b1 & Eg & Em & W1 & V1 & Lc1 & Hf1 & Hlen1 & Dn1).
+        rewrite Eg. simpl.
+        apply of_ares_ok; [rewrite Em; exact Gb|rewrite Em; exact Xb|].
+        intros stk' tgt' ta' sc Eres. rewrite Hta, Hpe. rewrite Hta in Eres.
+        assert (Eb1 : r_stack b1 = []) by (destruct (r_stack b1); [reflexivity|simpl in Hlen1; discriminate]).
+        eapply (rec_done_a_ok [] (E d (Some (I (d_name d) ids [])) (e_cur (fst cur)) (e_occ (fst cur)), Some x) (a_tgt a) None); eauto;
+          try (unfold links; rewrite Eb1; reflexivity);
+          try (rewrite Eb1; simpl; lia); try (rewrite Ht; auto; fail); try congruence; try exact Logic.I;
+          try (intros _; simpl; exists (AT x cs); auto; fail); try (intros _ _; simpl; discriminate); try (simpl; exact Logic.I).
+      + eexists. split; [reflexivity|]. simpl. split; [|exact Xb].
+        split; [exact Gb|]. unfold post. simpl. rewrite Sb, Hta, Hpe, Ht.
+        split; [reflexivity|split; [exact Wb|split; [reflexivity|split; [intros _; exact Db|split; [unfold links; simpl; rewrite Sb; reflexivity|]]]]].
+        split; [auto|split; [auto|split; [congruence|split; [exact Logic.I|split; [discriminate|split; [|simpl; lia]]]]]].
+        constructor; [simpl; discriminate|constructor].
+    - inversion Hfa as [|p' b' Hp Hb]; subst.
+      destruct (e_node (fst p)); [|eexists; split; reflexivity].
+      destruct (snd p) as [parent|] eqn:Epar; [|exfalso; apply Hp; reflexivity].
+      unfold links in Hl. simpl in Hl. change (skipn 0 (r_stack (a_rd a))) with (r_stack (a_rd a)) in Hl.
+      destruct (r_stack (a_rd a)) as [|[pa ks] up] eqn:Est; simpl in Hl; [discriminate|].
+      inversion Hl as [[E1 E2]]. assert (Epa : pa = parent) by congruence. subst pa.
+      destruct (build_ok caching choose HL nm cols (r_m (a_rd a)) d ids Hg)
+        as (body & x & cs & Eb & Gb & Wb & Vb & Xb & Sb & Db). rewrite Eb. simpl. rewrite Sb.
+      assert (Hne : r_stack (a_rd a) <> []) by (rewrite Est; discriminate).
+      destruct (r_tree_some (a_rd a) Hne) as [t Htree].
+      assert (Henv : r_env body = r_env (a_rd a) ++ [t]).
+      { rewrite Vb, Hwf. unfold r_forest. rewrite Htree. reflexivity. }
+      unfold attach. rewrite Est, Sb, Pos.eqb_refl.
+      destruct (attach_ok caching (a_rd a) body t x cs parent ks up (has_kids d) Gb Wb Sb Est Htree Henv)
+        as (r' & Ea & Gr & Wr & Vr & Xr & Sr & Dr).
+      rewrite Ea. simpl.
+      assert (Xall : ext caching (r_m (a_rd a)) (r_m r')) by (eapply ext_trans; eauto).
+      assert (Hmm : forall l : list aframe, map (fun f : aframe => Some (fst f)) l = map Some (map fst l))
+        by (intros; rewrite map_map; reflexivity).
+      destruct (d_kids d) as [|k kids] eqn:Ek.
+      + assert (Hk : has_kids d = false) by (unfold has_kids; rewrite Ek; reflexivity). rewrite Hk in Sr.
+        apply of_ares_ok; [exact Gr|exact Xall|].
+        intros stk' tgt' ta' sc Eres. rewrite Hta, Hpe. rewrite Hta in Eres.
+        assert (Hlc : last_closed r' = Some (AT x cs)).
+        { unfold last_closed. rewrite Sr. rewrite rev_app_distr. reflexivity. }
+        eapply (rec_done_a_ok (p :: b) (E d (Some (I (d_name d) ids [])) (e_cur (fst cur)) (e_occ (fst cur)), Some x) (a_tgt a) None); eauto;
+          try (unfold links; simpl; rewrite Sr; simpl; rewrite Epar, E2; reflexivity);
+          try (intros _; exact Dr); try lia; try (rewrite Ht; auto; fail); try congruence; try exact Logic.I;
+          try (intros _; simpl; exists (AT x cs); auto; fail); try (intros _ _; simpl; discriminate); try (simpl; exact Logic.I);
+          try (constructor; [rewrite Epar; discriminate|exact Hb]).
+      + assert (Hk : has_kids d = true) by (unfold has_kids; rewrite Ek; reflexivity). rewrite Hk in Sr.
+        eexists. split; [reflexivity|]. simpl. split; [|exact Xall].
+        split; [exact Gr|]. unfold post. simpl. rewrite Sr, Hta, Hpe, Ht.
+        split; [reflexivity|split; [exact Wr|split; [reflexivity|split; [intros _; exact Dr|split; [|]]]]].
+        * unfold links. simpl. rewrite Sr. simpl. rewrite Epar, E2. reflexivity.
+        * split; [auto|split; [auto|split; [congruence|split; [exact Logic.I|split; [discriminate|split; [|simpl; lia]]]]]].
+          constructor; [simpl; discriminate|constructor; [rewrite Epar; discriminate|exact Hb]].
+  Qed.
+
+  Lemma rec_next_step_ok a rest :
+    HInv caching a -> a_tgt a = None ->
+    exists s, of_ares (rec_next_a (a_stk a) None (a_ta a)) rest a (a_rd a) = Some s /\ step_post caching a s.
+  Proof.
+    intros Hinv Ht. destruct (hinv_unpack a Hinv Ht) as (Hg & Hwf & Hdn & Hl & Hta & Hpe & Hfa & _).
+    apply of_ares_ok; [exact Hg|apply ext_refl|].
+    intros stk' tgt' ta' sc Eres. rewrite Hta, Hpe. rewrite Hta in Eres.
+    eapply (rec_next_a_ok (a_stk a) None None); eauto; try congruence; try lia. exact Logic.I.
+  Qed.
+
+  Lemma hstep_a_ok a : HInv caching a ->
+    exists s, hstep_a caching choose nm cols try_leaf a = Some s /\ step_post caching a s.
+  Proof.
+    intros Hinv. unfold hstep_a. destruct (a_tgt a) as [t|] eqn:Ht.
+    - eexists. split; [reflexivity|]. simpl. auto.
+    - destruct (a_rest a) as [|u us].
+      + destruct (length (a_stk a) <=? 1); [eexists; split; reflexivity|]. apply rec_next_step_ok; auto.
+      + destruct (length (a_stk a) <=? 1); [eexists; split; reflexivity|].
+        destruct (a_stk a) as [|cur below] eqn:Estk; [eexists; split; reflexivity|].
+        destruct (read_rec try_leaf (e_decl (fst cur)) (u :: us)).
+        * apply instantiate_a_ok; auto.
+        * rewrite <- Estk. apply rec_next_step_ok; auto.
+  Qed.
+
+  Lemma edi_step_a_ok a : HInv caching a ->
+    exists s, edi_step_a caching choose nm cols try_leaf a = Some s /\ step_post caching a s.
+  Proof.
+    intros Hinv. unfold edi_step_a. destruct (a_tgt a) as [t|] eqn:Ht.
+    - eexists. split; [reflexivity|]. simpl. auto.
+    - destruct (a_rest a) as [|u us].
+      + destruct (length (a_stk a) <=? 1); [eexists; split; reflexivity|]. apply rec_next_step_ok; auto.
+      + destruct (a_stk a) as [|cur below] eqn:Estk; [eexists; split; reflexivity|].
+        destruct (read_rec try_leaf (e_decl (fst cur)) (u :: us)).
+        * apply instantiate_a_ok; auto.
+        * destruct (length (cur :: below) <=? 1); [eexists; split; reflexivity|].
+          rewrite <- Estk. apply rec_next_step_ok; auto.
+  Qed.
+End Steps.
